@@ -256,3 +256,13 @@ Example C20_premises :
   csize_ok (Some (mkPrefs 7 false true 3 0 true false)) [1; 2; 3]%Z /\
   frame_ok empty_frame_file [] /\ length empty_frame_file = 11%nat.
 Proof. repeat split; try reflexivity; try (right; reflexivity); apply empty_frame_file_ok. Qed.
+
+(* ================================================================ [stream/lnk6] LINKED blocks: the block-compressor hypotheses DISCHARGED
+   (delimited trailing section; construction and remaining premise: see the same section of Properties_C03.v) *)
+From LZ4V Require Proofs.BlkInstLinked Proofs.BlkInstLinkedFile.
+
+Theorem C20_roundtrip_linked_discharged :
+  forall orc, (forall n, BlkInstLinked.lcall_ok (orc n)) -> BlkInstLinkedFile.C20_body (BlkInstLinked.blk_of orc).
+Proof. exact BlkInstLinkedFile.c20_linked. Qed.
+Print Assumptions C20_roundtrip_linked_discharged.
+(* ================================================================ end of [stream/lnk6] *)
